@@ -77,12 +77,16 @@ func fbUpdate(db *bolt.DB, fn func(*bolt.Tx) error) error {
 	snap := s.snapshot()
 	tx := new(bolt.Tx)
 	fbTxDB[tx] = db
+	fbPending = nil
 	err := fn(tx)
 	if err != nil {
+		fbPending = nil
 		s.buckets = snap
 		for _, b := range snap {
 			fbByID[b.id] = b
 		}
+	} else {
+		fbCommit()
 	}
 	return err
 }
@@ -143,17 +147,37 @@ func fbGet(id *bolt.Bucket, key []byte) []byte {
 }
 
 func fbPut(id *bolt.Bucket, key []byte, value []byte) error {
+	// bbolt: "Supplied value must remain valid for the life of the transaction": the slice is kept by reference
+	// until the transaction commits (fbUpdate copies it then); the key is copied at once
 	b := fbByID[id]
-	v := append([]byte{}, value...)
 	for i, k := range b.keys {
 		if k == string(key) {
-			b.vals[i] = v
+			b.vals[i] = value
+			fbPending = append(fbPending, fbSlot{b, i})
 			return nil
 		}
 	}
 	b.keys = append(b.keys, string(key))
-	b.vals = append(b.vals, v)
+	b.vals = append(b.vals, value)
+	fbPending = append(fbPending, fbSlot{b, len(b.vals) - 1})
 	return nil
+}
+
+type fbSlot struct {
+	b *fbBucket
+	i int
+}
+
+// values put by the running read-write transaction, still aliasing the caller's slices
+var fbPending []fbSlot
+
+func fbCommit() {
+	for _, s := range fbPending {
+		if s.i < len(s.b.vals) {
+			s.b.vals[s.i] = append([]byte{}, s.b.vals[s.i]...)
+		}
+	}
+	fbPending = nil
 }
 
 // FakeBolt installs the redirects and returns a fresh database handle backed by the model.
